@@ -145,6 +145,15 @@ def _run_c04_table(repo, sub):
 
 
 def run(repo, rep, tier):
+    rep.rule("R-C20-14", "(shared with C07) the wrapper holds the GIL for the whole native call: released, two threads interleave inside partition() "
+                         "over the same static work buffers - reads and writes outside what each call initialised, or a concurrent free / malloc")
+    from .c07 import gil_held
+    gil_held(repo, rep, "R-C20-14")
+    rep.rule("R-C20-15", "(shared with C19) the tracker only removes from its availability list a predecessor it has just tested to be in it "
+                         "(list.remove of an absent element raises ValueError through apply_ufunc)")
+    from .c19 import availability as _avail
+    from .c07 import _Relabel
+    _avail(repo, _Relabel(rep, "R-C20-15"))
     rep.rule("R-C20-5", "every array access in specpart.c has 0 <= index < extent, extents taken from the malloc sizes, "
                         "index ranges from a symbolic interval analysis (polynomials in mk, mth, ihmax) over all "
                         "assignments, dominating conditions, counted loops, stored-value ranges and call bindings")
